@@ -152,6 +152,48 @@ def ExactTr {V} (ops : ValOps V) (r : Runner V) (x : V) : Trace V → Prop
   | step :: older => (∀ n v, (n, v) ∈ step → ExactIn ops r (histOf r x older) n v) ∧ ExactTr ops r x older
 
 
+/-! ### grounded histories (for schedule independence) -/
+
+/-- what is known about the start of node `n` on input `v`, given the completions `H` processed
+    by then -/
+structure StartFacts {V} (ops : ValOps V) (r : Runner V) (H : List (Done V)) (n : Key) (v : V) : Prop where
+  routed : lookupList n r.ctrlPreds ≠ [] →
+    ∃ p, p ∈ lookupList n r.ctrlPreds ∧ ∃ o, (p, o) ∈ H ∧ RoutesC r p o n
+  dataRes : ∀ p, p ∈ lookupList n r.dataPreds → (∃ o, (p, o) ∈ H) ∨ SkippedS r H p
+  exact : ∃ vals : List (Key × V), (akeys vals).Nodup ∧
+    (∀ p w, (p, w) ∈ vals ↔ ((p, w) ∈ H ∧ RoutesD r p w n)) ∧
+    ((vals = [] ∧ v = ops.zero) ∨ collect ops (vals.map (·.2)) = .ready v)
+
+/-- a history in which every completion is the output of a node started on facts drawn from the
+    history itself -/
+structure Grounded {V} (ops : ValOps V) (r : Runner V) (x : V) (H : List (Done V)) : Prop where
+  fn : ∀ p o o', (p, o) ∈ H → (p, o') ∈ H → o = o'
+  start : ∀ o, (START, o) ∈ H → o = x
+  each : ∀ n o, (n, o) ∈ H → n ≠ START →
+    ∃ v H', (∀ d, d ∈ H' → d ∈ H) ∧ StartFacts ops r H' n v ∧
+      ∃ nd, r.node? n = some nd ∧ nd.act v = .ok o
+
+
+/-- a channel that has data predecessors has a control predecessor -/
+def HasCtrl {V} (r : Runner V) : Prop :=
+  ∀ n cs ds, (n, cs, ds) ∈ shapes (initChans r) → cs = [] → ds = []
+
+
+/-- every task of every step was started on facts drawn from the completions of the older steps -/
+def FactsTr {V} (ops : ValOps V) (r : Runner V) (x : V) : Trace V → Prop
+  | [] => True
+  | step :: older => (∀ n v, (n, v) ∈ step → StartFacts ops r (histOf r x older) n v) ∧ FactsTr ops r x older
+
+
+/-- the hypotheses of the confluence theorem beyond `DagWF`/`DagWF2` -/
+structure DagWF3 {V} (r : Runner V) : Prop where
+  hasCtrl : HasCtrl r
+  startNoPreds : lookupList START r.ctrlPreds = []
+  acyclicAll : ∃ rank : Key → Nat,
+    (∀ n cs ds, (n, cs, ds) ∈ shapes (initChans r) → ∀ p, p ∈ cs ∨ p ∈ ds → rank p < rank n) ∧
+    (∀ n p, (p ∈ lookupList n r.ctrlPreds ∨ p ∈ lookupList n r.dataPreds) → rank p < rank n)
+
+
 /-! ### the additional well-formedness, executable -/
 
 def dagWF2b {V} (r : Runner V) : Bool :=
@@ -166,6 +208,14 @@ def dagWF2b {V} (r : Runner V) : Bool :=
     | some nd => nd.writeTo.contains e.1 ||
         ((nd.branches.flatMap (·.ends)).contains e.1 && !nd.controls.contains e.1))) &&
   r.ctrlPreds.all (fun e => e.2.isEmpty || (akeys (initChans r)).contains e.1)
+
+def dagWF3b {V} (r : Runner V) : Bool :=
+  let sh := shapes (initChans r)
+  let rank := rankOf sh
+  sh.all (fun e => !e.2.1.isEmpty || e.2.2.isEmpty) &&
+  (lookupList START r.ctrlPreds).isEmpty &&
+  sh.all (fun e => (e.2.1 ++ e.2.2).all (fun p => decide (rank p < rank e.1))) &&
+  (r.ctrlPreds ++ r.dataPreds).all (fun e => e.2.all (fun p => decide (rank p < rank e.1)))
 
 end DagRun
 end EinoV.Engine
